@@ -72,6 +72,13 @@ Unknowns ==
     [code |-> C4(7780), flags |-> VFlag + MFlag, vendor |-> V0, kind |-> "unknown", sem |-> <<1>>, kids |-> <<>>],
     \* a dictionary code sent under an unknown vendor is a different, undefined AVP
     [code |-> C4(VCode("u32")), flags |-> VFlag, vendor |-> C4(4242), kind |-> "unknown", sem |-> <<0, 0, 0, 7>>, kids |-> <<>>],
+    \* so is a code of the BASE dictionary under an unknown vendor (the message belongs to another
+    \* application): Result-Code, Event-Timestamp, Host-IP-Address, Vendor-Specific-Application-Id
+    \* with payloads that are not values of those types
+    [code |-> C4(268), flags |-> VFlag, vendor |-> C4(4242), kind |-> "unknown", sem |-> <<1, 2, 3>>, kids |-> <<>>],
+    [code |-> C4(55), flags |-> VFlag + MFlag, vendor |-> C4(4242), kind |-> "unknown", sem |-> <<9>>, kids |-> <<>>],
+    [code |-> C4(257), flags |-> VFlag, vendor |-> C4(193), kind |-> "unknown", sem |-> <<1>>, kids |-> <<>>],
+    [code |-> C4(260), flags |-> VFlag, vendor |-> C4(193), kind |-> "unknown", sem |-> <<1, 2, 3, 4, 5>>, kids |-> <<>>],
     \* reserved flag bits are carried verbatim
     [code |-> C4(7781), flags |-> 31, vendor |-> V0, kind |-> "unknown", sem |-> <<1, 2>>, kids |-> <<>>] }
 
